@@ -180,6 +180,16 @@ func (r *Report) Violate(v *Violation) bool {
 	if v.Engine == "" {
 		v.Engine = r.Engine
 	}
+	if rc := os.Getenv("VCHECK_REPLAY_CASE"); rc != "" {
+		// replay mode: judge only the recorded case; known findings do not apply
+		if v.Case != rc || v.Diag != os.Getenv("VCHECK_REPLAY_DIAG") {
+			return false
+		}
+		r.mu.Lock()
+		r.violations = append(r.violations, v)
+		r.mu.Unlock()
+		return true
+	}
 	r.mu.Lock()
 	defer r.mu.Unlock()
 	for _, f := range r.findings {
@@ -269,7 +279,9 @@ func (r *Report) Finish() int {
 	}
 	b, _ := json.MarshalIndent(ev, "", " ")
 	os.MkdirAll(filepath.Join(verifRoot, "evidence"), 0o755)
-	if err := os.WriteFile(filepath.Join(verifRoot, "evidence", r.Prop+".json"), append(b, '\n'), 0o644); err != nil {
+	if os.Getenv("VCHECK_NO_EVIDENCE") != "" {
+		// replay runs do not rewrite evidence
+	} else if err := os.WriteFile(filepath.Join(verifRoot, "evidence", r.Prop+".json"), append(b, '\n'), 0o644); err != nil {
 		fatalf("writing evidence: %v", err)
 	}
 	fmt.Printf("%s %s: evaluations=%v distinct_nontrivial=%v states=%v transitions=%v exhaustive=%v violations=%d known=%v wall=%.1fs\n",
